@@ -84,7 +84,7 @@ DET = {
  "C02-5": (["C01 quick (probe huge-blocks)", "C02 quick (probe huge-blocks)"], "C02/version/restore-error/probe-huge-blocks", False, "round 4. decompression limit lowered from the format's 1 GiB to 32 MiB while the block size is a setting: needs a stored object over 32 MiB. New fixed probe in C01 and C02: single blocks of 40 MiB and 33 MiB+1 written with a 64 MiB block size (C02: carried over into a second version). An index hunk over 32 MiB (100 000 entries with long paths) stays out of reach"),
  "C02-6": (["C02 quick"], "C02/version/restore-diff/content", False, "round 4. a basis mtime without fractional part is compared to the second: needs a rewrite of equal length landing in the same second as a whole-second mtime. The model's edits chose new mtimes independently (seconds apart); new edit kind Nudge = same length, new content, old mtime + 1 ns .. 1 s; shrunk case in corpus/C02"),
  "C03-5": (["C03 quick (probe huge-file)", "C11 quick (probe huge-file)"], "C03/interrupted-band-not-a-prefix-of-source/probe-huge-file", False, "round 4. after a file >= 256 MiB the index hunk is written while small files are still queued for a combined block: needs a file of that absolute size. New fixed probe (one 272 MiB file between small ones) in C01, C03 (killed before the last block write) and C11 (written index order); absolute-size thresholds above that stay out of reach"),
- "C03-6": (["C03 quick", "C08 quick"], "C03/interrupted-version-listing", False, "round 4. stitching stops at an older band that cannot be opened instead of skipping it: needs a band directory without head below an interrupted band. Scenarios now end (27%) with a backup killed just before / while writing its BANDHEAD, and interrupted backups of histories stop at operation 0-3 a quarter of the time; shrunk case in corpus/C03"),
+ "C03-6": (["C03 quick", "C08 quick"], "C03/interrupted-version-listing", False, "round 4. stitching stops at an older band whose head cannot be read instead of skipping it: needs a band with an unreadable (zero-length) BANDHEAD below an interrupted band; C08 got a band state 'zero-length head' for it. Scenarios now end (27%) with a backup killed just before / while writing its BANDHEAD, and interrupted backups of histories stop at operation 0-3 a quarter of the time; shrunk case in corpus/C03"),
  "C04-5": (["C04 quick"], "C04/existing-file-removed", True, "round 4. clean-up remove_file after any failed block write, also AlreadyExists from a leftover"),
  "C04-6": (["C04 quick"], "C04/dangling-reference", False, "round 4. a block write failing with Other is retried and AlreadyExists on the retry is taken as success: needs exactly that pair of errors on adjacent operations. C04 now enumerates, for (a thinned set of) every write of the trace, all 16 ordered pairs of error kinds on that operation and the next one"),
  "C05-5": (["C05 quick (scale probe many-hunks)"], "C05/referenced-block-removed/probe-many-hunks", True, "round 4. reference scan walks sub-directories 0..count by position with hunk numbers taken relative: caught by the existing probe"),
